@@ -196,27 +196,28 @@ class Grammar:
         sequence = {v for vv in self.alternatives.values() for v in vv}
         return (keys, sequence, sequence.union(keys).union(self.all_nodes))
 
-    def collect_types(self, ty: type):
+    def collect_types(self, ty: type, visiting: list[type] | None = None):
+        visiting = [] if visiting is None else visiting
         yield ty
         if is_generic_list(ty):
             gty = get_generic_parameter(ty)
-            yield from self.collect_types(gty)
+            yield from self.collect_types(gty, visiting)
         elif is_annotated(ty):
             gty = get_generic_parameter(ty)
-            yield from self.collect_types(gty)
+            yield from self.collect_types(gty, visiting)
         elif is_generic(ty):
             for p in get_generic_parameters(ty):
-                yield from self.collect_types(p)
+                yield from self.collect_types(p, visiting)
         elif is_metahandler(ty):
             nt = get_args(ty)[0]
-            yield from self.collect_types(nt)
+            yield from self.collect_types(nt, visiting)
         elif is_abstract(ty):
             pass
-        else:
+        elif not any(ty is v for v in visiting):
+            # productions on the current path are not entered again (directly or mutually recursive types)
             for _, argt in get_arguments(ty):
                 if argt != ty:
-                    yield from self.collect_types(argt)
-                # TODO: This does not support mutually recursive types.
+                    yield from self.collect_types(argt, visiting + [ty])
 
     def get_all_mentioned_symbols(self) -> set[type]:
         return {x for t in self.get_all_symbols()[2] for x in self.collect_types(t)}
